@@ -109,7 +109,7 @@ class Context:
         meta = os.path.join(self.work, "meta.%d" % len(self.tlc_cmds))
         if workers is None:
             workers = min(NCPU, 16)
-        cmd = ["tlc", "-noGenerateSpecTE", "-metadir", meta, "-workers", str(workers), "-config", cfg]
+        cmd = ["tlc", "-noGenerateSpecTE", "-maxSetSize", "50000000", "-metadir", meta, "-workers", str(workers), "-config", cfg]
         if simulate:
             cmd += ["-simulate", simulate]
         if coverage:
